@@ -1,7 +1,6 @@
 package core
 
 import (
-	"syscall"
 	"crypto/sha256"
 	"encoding/hex"
 	"fmt"
@@ -9,6 +8,7 @@ import (
 	"math/rand"
 	"os"
 	"path/filepath"
+	"syscall"
 	"time"
 
 	bolt "go.etcd.io/bbolt"
